@@ -98,6 +98,7 @@ func runC01(c *report.Ctx) {
 	ruleNoTxUnderUpdate(c, 8)
 	ruleReorgReachesNewTip(c)
 	ruleEveryRelevantOutputCredited(c)
+	ruleMemoryTipFollowsPersistedTip(c)
 
 	// ---- must-pass ---------------------------------------------------------
 	c.Rule("must-pass", "every success exit of a ledger step passes the call that makes the step durable/complete", 5)
